@@ -83,16 +83,40 @@ def evalCoreList (env : String → Val) (d : Dialect) : List SaExpr → List Val
   | e :: es => evalCore env d e :: evalCoreList env d es
 end
 
+def isAbsentU : U → Bool
+  | .absent => true
+  | _ => false
+
+mutual
 /-- meaning of a numeric API-call tree -/
 def evalNumU (env : String → Val) (d : Dialect) : U → Val
   | .col n _ => env n
+  | .subq n _ => env n
   | .li i => .int i
   | .ln _ => .null
   | .bin k a b => binVal k.op (evalNumU env d a) (evalNumU env d b)
   | .neg a => unVal .neg (evalNumU env d a)
+  | .cast ty a => castVal d ty (evalNumU env d a)
+  | .coalesce cs => coalesceVal (evalNumUList env d cs)
+  | .case_ v ws e =>
+    -- a missing `else_` is NULL (`evalNumU .absent`)
+    if isAbsentU v then evalSearched env d ws (evalNumU env d e)
+    else evalSimple env d (evalNumU env d v) ws (evalNumU env d e)
   | _ => .null
-
-mutual
+def evalNumUList (env : String → Val) (d : Dialect) : List U → List Val
+  | [] => []
+  | u :: us => evalNumU env d u :: evalNumUList env d us
+/-- searched CASE: the result of the first pair whose condition is TRUE, else `e` -/
+def evalSearched (env : String → Val) (d : Dialect) : List U → Val → Val
+  | c :: r :: rest, e =>
+    if evalBoolU env d c = some true then evalNumU env d r else evalSearched env d rest e
+  | _, e => e
+/-- simple CASE: the result of the first pair whose value equals `v`, else `e` -/
+def evalSimple (env : String → Val) (d : Dialect) (v : Val) : List U → Val → Val
+  | c :: r :: rest, e =>
+    if evalCmp .eq v (evalNumU env d c) = some true then evalNumU env d r
+    else evalSimple env d v rest e
+  | _, e => e
 /-- meaning of a boolean API-call tree -/
 def evalBoolU (env : String → Val) (d : Dialect) : U → TV
   | .bin k a b =>
